@@ -39,8 +39,9 @@ def register(reg, prop="C19"):
         params={"self": "obj:BrentsRootFinder", "start": "real", "end": "real",
                 "f_start": "real", "f_end": "real", "epsilon": "real"},
         setup=_ghost_bracket, fresh_self=True,
-        requires=["start <= end", "f_start * f_end < 0", "epsilon > 0"],
-        ensures=["inv(self)", "self.fa != 0 and self.fb != 0",
+        # opposite signs, or an exact root at one end (not at both)
+        requires=["start <= end", "f_start * f_end <= 0", "f_start != 0 or f_end != 0", "epsilon > 0"],
+        ensures=["inv(self)", "self.fa != 0",
                  "self.lo0 == start and self.hi0 == end",
                  "min(self.a, self.b) == start and max(self.a, self.b) == end",
                  "(self.a == start and self.fa == f_start and self.b == end and self.fb == f_end) or "
